@@ -7,9 +7,7 @@ import numpy as np
 from common import R, Ro, fl
 
 
-LEAN_MODULES = ["PyomaVerif.Props.C20", "PyomaVerif.Props.C20Extract", "PyomaVerif.Mutants.C20", "PyomaVerif.Props.WiringPlot", "PyomaVerif.Props.WiringClass", "PyomaVerif.Props.C20Stored"]
-LEAN_MODULES = ["PyomaVerif.Props.C20", "PyomaVerif.Props.C20Extract", "PyomaVerif.Mutants.C20", "PyomaVerif.Props.WiringPlot", "PyomaVerif.Props.WiringClass",
-                "PyomaVerif.Props.C20Facts"]
+LEAN_MODULES = ["PyomaVerif.Props.C20", "PyomaVerif.Props.C20Extract", "PyomaVerif.Mutants.C20", "PyomaVerif.Props.WiringPlot", "PyomaVerif.Props.WiringClass", "PyomaVerif.Props.C20Stored", "PyomaVerif.Props.C20Facts"]
 THEOREMS = [
     # depth round 2 (g19): limits, marker classes for Lab in {0,1}, decibel transform (Props/C20Facts.lean)
     "PV.C20.C20_limits_x",
